@@ -37,6 +37,45 @@ def race_demo(out, tier, findings):
     return res
 
 
+def e2e_termination(out, tier):
+    """`grog build` itself returns, with a status, for cache states with missing entries: the cache-fault scripts of the C15 check
+    (a blob or all results lost, outputs wiped, a dependant forced to run) in BOTH load_outputs modes on the real binary;
+    every build runs under a timeout; `hang` is the failing input.  Model-free."""
+    import c15, histcheck as hc
+    r = vlib.Rng(vlib.seed() * 4241 + 4)
+    T = lambda name, deps, salt="v0": {"k": "t", "pkg": "p", "name": name, "salt": salt, "ins": [], "glob": None, "excl": [],
+                                       "outs": [("file", name + ".txt")], "deps": deps, "fp": {}, "nocache": False, "multi": False,
+                                       "beh": "n", "check": False, "comment": ""}
+    scripts = []
+    # c <- [b, a], a <- b: the dependency that has to be re-made is needed by another dependency as well
+    for order in ([0, 1], [1, 0]):
+        for lost in (0, 1):
+            s1 = {"nodes": [T("b", []), T("a", [0]), T("c", order)], "files": {}}
+            s2 = {"nodes": [T("b", []), T("a", [0]), T("c", order, "v1")], "files": {}}
+            scripts.append([("src", s1, "initial"), ("build",), ("dropblob-of", lost, 0), ("wipe-all",),
+                            ("src", s2, "command (output-relevant) of //p:c"), ("build",), ("build",)])
+    for _ in range(4 if tier == "quick" else 80):
+        st = c15.script(dict(hc.CLEAN), r)
+        if any(x[0] in ("dropblob", "dropresults") for x in st):
+            scripts.append(st)
+    plans = []
+    for steps in scripts:
+        for mode in ("all", "min"):
+            plans.append(("term-%s" % mode, (lambda steps=steps, mode=mode: (lambda h, rr: (c15.apply(h, steps, mode), [])[1]))()))
+    batch = hc.run_batch(plans, vlib.seed() + 44)
+    hc.check_plan_errors(batch)
+    nb = 0
+    for name, h, notes, m in batch:
+        for bi, b in enumerate(h.builds):
+            nb += 1
+            if b["rc"] == "hang":
+                out.violation("grog build (load_outputs=%s) does not return on a cache with missing entries: build %d hangs [%s]" % (
+                    "minimal" if name.endswith("min") else "all", bi, "; ".join(h.desc)[:600]), h.replay_dict())
+                break
+    hc.cleanup(batch)
+    return {"e2e_fault_histories": len(batch), "e2e_builds": nb}
+
+
 def run(out, tier):
     findings = {f["class"]: f for f in vlib.known_findings("C04")}
     info, scheds, extra = walkerlib.gated_campaign(out, "C04", tier, "term", race=(tier == "thorough"))
@@ -57,6 +96,7 @@ def run(out, tier):
         c06.restore_fault_cases(out, tier)
     except (ImportError, AttributeError):
         out.notes.append("restore fault cases not available yet")
+    e2e = e2e_termination(out, tier)
     samples = []
     for s in scheds[:400:150]:
         tr = extra.get("traces", {}).get(s["id"])
@@ -66,13 +106,14 @@ def run(out, tier):
     out.cov.update(info)
     out.cov.update(sinfo)
     out.cov.update({
-        "evaluations": info.get("steps", 0) + sinfo.get("ungated_walks", 0) + sinfo.get("ungated_walker_only_walks", 0) + ex["states"],
+        "evaluations": info.get("steps", 0) + sinfo.get("ungated_walks", 0) + sinfo.get("ungated_walker_only_walks", 0) + ex["states"] + e2e["e2e_builds"],
         "rule": "gated: one evaluation per quiescent step (+ termination / accounting / nothing-starts-after-cancel oracles per run); ungated: one per walk "
                 "(hang = timeout, abort = exit status); model: one per explored state; distinct_nontrivial = distinct (graph, W, mode, failing set, cancel step, action sequence) with more than 3 actions",
         "samples": samples,
         "traces_validated_against_impl": info.get("traces", 0),
         "input_distribution": info.get("distribution", {}),
         "model_exploration": ex,
+        "e2e_termination": e2e,
         "completions_map_demo": rd,
     })
     out.assumptions += walkerlib.ASSUMPTIONS
